@@ -4,8 +4,13 @@
 (*   catalog /Outlines (catalog_mut, or a new catalog made with add_object) ; get_toc ;          *)
 (*   save_to/load_mem (xref table and xref stream) ; get_toc                                     *)
 (* logged as [np, pageids, adds, adjust, bids, roots, children, adj, base, oldids, changed, root,*)
-(* rootrec, max_id, items, later, toc0, toc1, toc2].  Outline!Judge (declarative layer) decides; the     *)
-(* impl-shaped functions are run on the same forest only to report drift.                        *)
+(* rootrec, max_id, items, later, tocs, room, untouched], or, for chains t1 > ... > tn of any    *)
+(* length, in the per-level column format of Outline!ChainJudge (kind = "chain").                *)
+(* Outline!Judge / ChainJudge (declarative layer) decide; the impl-shaped functions are run on   *)
+(* the same forest only to report drift.  room >= 0: the base document's max_id lies `room`      *)
+(* below the highest usable object number; a forest that needs more numbers than that cannot be  *)
+(* given fresh identifiers by anybody, so for it the only demand is: an outline as specified, or  *)
+(* no outline and an untouched document.                                                          *)
 EXTENDS Outline, Json, IOUtils
 
 Recs == ndJsonDeserialize(IOEnv.TRACE)
@@ -32,11 +37,26 @@ Drift(r) ==
        \/ r.rootrec.first # og.rootrec.first \/ r.rootrec.last # og.rootrec.last
        \/ Len(r.items) # Len(og.items)
        \/ \E j \in 1..Len(og.items) : r.items[j] # og.items[j]
-       \/ r.toc0.toc # ImplToc(b.objs, b.root, r.np)
+       \/ r.tocs[1].toc # ImplToc(b.objs, b.root, r.np)
+
+IsChain(r) == "kind" \in DOMAIN r
+
+\* object numbers needed: the outline dictionary, an item and an action per bookmark
+Needed(r) == 1 + 2 * (IF IsChain(r) THEN r.n ELSE Len(r.adds))
+Exhausted(r) == r.room >= 0 /\ Needed(r) > r.room
+
+NoOutline(r) ==
+    IF ~Exhausted(r) THEN "build.none"
+    ELSE IF r.untouched THEN "ok-refused" ELSE "fresh.refused-but-changed"
 
 Judge1(r) ==
-    IF ~InDomain(r.adds, r.np) \/ r.adds = <<>> \/ (HasZero(r.adds) /\ ~r.adjust) THEN "ok-outside-domain"
-    ELSE LET v == Judge(r.adds, r.np, r.pageids, r.adjust, OgOf(r), <<r.toc0, r.toc1, r.toc2>>)
+    IF IsChain(r)
+    THEN IF r.n < 1 \/ (r.zero /\ r.n > 1 /\ ~r.adjust) THEN "ok-outside-domain"
+         ELSE IF r.root = 0 THEN NoOutline(r)
+         ELSE ChainJudge(r)
+    ELSE IF ~InDomain(r.adds, r.np) \/ r.adds = <<>> \/ (HasZero(r.adds) /\ ~r.adjust) THEN "ok-outside-domain"
+    ELSE IF r.root = 0 THEN NoOutline(r)
+    ELSE LET v == Judge(r.adds, r.np, r.pageids, r.adjust, OgOf(r), r.tocs)
          IN IF v # "ok" THEN v
             ELSE IF Drift(r) THEN "ok-drift" ELSE "ok"
 
